@@ -677,8 +677,19 @@ def gen(repo):
         b = ibody(fn)
         if re.search(r"save|write_bytes|\.be\.", b):
             raise ExtractError("Indexer::%s reaches the backend" % fn)
-    if ibody("add") != "self.add_with(pack, false)" or ibody("add_remove") != "self.add_with(pack, true)":
+    # add_remove: either the thin wrapper, or (prune mark-time repair of C10) the variant that parks
+    # the pack in `held_removals` until `release_removals` hands every parked pack to add_with; for the
+    # model both are "an add" (immediately or at the release), and neither reaches the backend itself
+    ar_thin = "self.add_with(pack, true)"
+    ar_held = "if let Some(held) = &mut self.held_removals { held.push(pack); return Ok(()); } self.add_with(pack, true)"
+    if ibody("add") != "self.add_with(pack, false)" or ibody("add_remove") not in (ar_thin, ar_held):
         raise ExtractError("Indexer::add / add_remove are no longer thin wrappers of add_with")
+    if ibody("add_remove") == ar_held:
+        hr, rr = ibody("hold_removals"), ibody("release_removals")
+        if hr != "self.held_removals = Some(Vec::new());":
+            raise ExtractError("Indexer::hold_removals has an unknown shape")
+        if re.search(r"save|write_bytes|\.be\.", rr) or "self.add_with(pack, true)?;" not in rr or "self.held_removals.take()" not in rr:
+            raise ExtractError("Indexer::release_removals no longer just hands the held packs to add_with")
     rs = ibody("reset")
     if "self.file = IndexFile::default();" not in rs or "self.count = 0;" not in rs:
         raise ExtractError("Indexer::reset no longer clears the pending file and the count")
